@@ -705,6 +705,8 @@ class Evaluator:
     def from_folded(self, v):
         if v[0] == "num":
             return ("num", v[1], v[2])
+        if v[0] == "char":
+            return ("str", v[1])     # a character constant: only ever compared or passed on
         if v[0] in ("str", "bool", "none", "bytes"):
             return v if v[0] != "none" else ("none",)
         if v[0] == "variant":
